@@ -245,6 +245,12 @@ type GoValueOpts struct {
 	MaxLen     int
 	// NoEmptyKeys: map keys are never "".
 	NoEmptyKeys bool
+	// Exemplars: per type, values drawn with probability 1/3 instead of a
+	// random fill (values the random filler would practically never draw).
+	Exemplars map[reflect.Type][]interface{}
+	// IfaceTypesFor: dynamic types for positions of a specific non-empty
+	// interface type (interfaces with methods stay nil otherwise).
+	IfaceTypesFor map[reflect.Type][]reflect.Type
 }
 
 var defaultIfaceTypes = []reflect.Type{
@@ -281,6 +287,10 @@ func (g *ValueGen) fill(v reflect.Value, depth int) {
 	}
 	if depth > 6 {
 		maxLen = 1
+	}
+	if ex := g.O.Exemplars[t]; ex != nil && r.P(1, 3) {
+		v.Set(reflect.ValueOf(Pick(r, ex)))
+		return
 	}
 	switch t.Kind() {
 	case reflect.Bool:
@@ -358,7 +368,20 @@ func (g *ValueGen) fill(v reflect.Value, depth int) {
 		g.fill(p.Elem(), depth+1)
 		v.Set(p)
 	case reflect.Interface:
-		if t.NumMethod() != 0 || r.P(1, 6) {
+		if r.P(1, 6) || depth > 12 {
+			return
+		}
+		if t.NumMethod() != 0 {
+			ts := g.O.IfaceTypesFor[t]
+			if ts == nil {
+				return
+			}
+			dt := Pick(r, ts)
+			dv := reflect.New(dt).Elem()
+			if dt.Kind() != reflect.Ptr || !r.P(1, 4) {
+				g.fill(dv, depth+2) // a quarter of the pointer values stay typed nil pointers
+			}
+			v.Set(dv)
 			return
 		}
 		types := g.O.IfaceTypes
